@@ -90,3 +90,48 @@ def search(rng, binaries, log):
         if f and not classify(c, f, il, FINDINGS_ALL):
             return (c, f, il)
     return None
+
+
+def extra_checks(tier, rng, binaries, log):
+    """chunk framing at the encoder, for sizes no simulated write can carry: `chunk_header(size, ext).to_string()` must be
+    the hexadecimal size (no sign, no prefix, every digit), `;ext` when an extension is given, CRLF — judged by
+    construction, and the same lines are given to the model driver (correspondence)."""
+    import vlib
+    res = []
+    try:
+        rx = binaries.get("rx_driver") or vlib.build_harness("rx_driver", log)
+    except vlib.BuildError as e:
+        return [(False, "rx_driver does not build against the current tree: " + str(e)[-300:], "build rx_driver", {})]
+    sizes = [0, 1, 9, 10, 15, 16, 255, 256, 4095, 4096, 65535, 65536, 0xFFFFF, 0x100000, 0xFFFFFF, 0x1000000, 0xFFFFFFF,
+             0x10000000, 0x12345678, 0x7FFFFFFF, 0x80000000, 0xFFFFFFFF, 0x100000000, 4000000000, 0xABCDEF012, 0xFFFFFFFFFF,
+             0x7FFFFFFFFFFFFFFF]
+    sizes += [rng.below(1 << rng.range(1, 62)) for _ in range(40 if tier == "quick" else 2000)]
+    cases = []
+    for k, n in enumerate(sizes):
+        ext = rng.choice([b"", b"", b"x", b"name=val", b"a;b=c"])
+        cases.append(Case("c04-enc-%d" % k, ["chunkhdr %d %s" % (n, hx(ext))], {"n": n, "ext": ext}))
+    impl, _ = vlib.run_parallel(rx, cases, "c04enc", jobs=4)
+    model = {}
+    import os
+    if os.path.exists(vlib.model_binary()):
+        model, _ = vlib.run_parallel(vlib.model_binary(), cases, "c04encm", jobs=4)
+    bad = None
+    diff = None
+    for c in cases:
+        out = impl.get(c.id) or []
+        want = b"%x" % c.meta["n"] + (b";" + c.meta["ext"] if c.meta["ext"] else b"") + b"\r\n"
+        got = bytes.fromhex(out[0]) if out and out[0] != "-" and all(ch in "0123456789abcdef" for ch in out[0]) else None
+        # optional whitespace after the ';' that introduces the extension is allowed (RFC 7230 BWS)
+        import re as _re
+        norm = _re.sub(rb"^([0-9a-fA-F]+);[ \t]*", rb"\1;", got) if got is not None else None
+        if norm != want:
+            bad = bad or (c, "chunk_header(%d, %r).to_string() is %r; a chunk of that size must be announced as %r" % (
+                c.meta["n"], c.meta["ext"], got, want))
+        if model and model.get(c.id) != out:
+            diff = diff or (c, "model and implementation differ on %s: impl %s model %s" % (c.lines[0], out, model.get(c.id)))
+    if bad:
+        res.append((False, bad[1], bad[0].script(), {}))
+    elif diff:
+        res.append((False, "correspondence (encoder): " + diff[1], diff[0].script(), {}))
+    res.append((True, "", "", {"encoder_chunk_headers_checked": len(cases)}))
+    return res
